@@ -27,6 +27,8 @@ var Hosts = map[string]*HostSpec{
 	"hs":      {Name: "hs", Params: []string{"string", "int64"}},                  // typed parameters, returns s
 	"hvs":     {Name: "hvs", Params: []string{"string", "int64"}, Variadic: true}, // (s, nums...) returns len(nums)
 	"hcb":     {Name: "hcb", Params: []string{"func"}},                            // Go function taking func(): calls it
+	"hcbe":    {Name: "hcbe", Params: []string{"func"}},                           // Go function taking func() error: calls it, ignores the error VALUE it returns
+	"hcbv":    {Name: "hcbv", Params: []string{"func"}},                           // Go function taking func() (interface{}, error): calls it, ignores both results
 	"heach":   {Name: "heach", Params: []string{"any", "func"}},                   // Go function taking (list, func(interface{})): calls it per element
 	"pg":      {Name: "pg", Params: []string{"any"}},                              // event on the goroutine trace
 	"hg":      {Name: "hg", Params: []string{"any"}, Variadic: true},              // Go function meant to be started with `go`: event on the goroutine trace
